@@ -148,14 +148,24 @@ func assertASTIsVarAssignBlock(ast *syntax.Program) ([]*syntax.VarAssignExpr, bo
 // 输入客单价
 // 令销量 = 300
 // 输出客单价 * 销量  ->  8400
-func ExecVarInputText(source string) (r.ElementMap, error) {
+// newInputVM - a VM for evaluating input expressions: like the statements of a program they
+// run in the frame of a (here: empty) main module - without a frame and its scope, looking up
+// a name or 其 dereferenced nil / indexed the empty call stack
+func newInputVM() *r.VM {
 	vm := r.InitVM(globalValues)
+	module := vm.AllocateModule(MODULE_NAME_MAIN, nil)
+	vm.PushCallFrame(r.NewScriptCallFrame(module))
+	return vm
+}
+
+func ExecVarInputText(source string) (r.ElementMap, error) {
+	vm := newInputVM()
 
 	return evalVarAssignBlockText(vm, source)
 }
 
 func ExecExpressionInputText(exprStrMap map[string]string) (r.ElementMap, error) {
-	vm := r.InitVM(globalValues)
+	vm := newInputVM()
 	result := make(map[string]r.Element)
 	// evaluate in sorted key order, so that the first error reported is always the same one
 	keys := make([]string, 0, len(exprStrMap))
